@@ -1,3 +1,4 @@
+#![feature(allocator_api)]
 //@ unit validator
 // The scoping half of C23 on the real crates/air-lib/air-parser/src/parser/validator.rs: the RECORDING side of VariableValidator
 // (the `met_*` callbacks the generated parser calls once per instruction, children before parents, left before right) and Span
@@ -67,6 +68,8 @@ pub mod seq_lemmas {
 }
 use std::cmp::Ordering;
 pub type Rc<T> = std::rc::Rc<T>;
+// std: Rc::deref is the identity on the pointee
+pub assume_specification<T: ?Sized, A: core::alloc::Allocator> [<std::rc::Rc<T, A> as core::ops::Deref>::deref] (r: &std::rc::Rc<T, A>) -> (o: &T) ensures o == &**r;
 
 // ---------------------------------------------------------------- shim: AirPos (trusted; derives of a usize newtype)
 #[derive(Clone, Copy)]
@@ -187,6 +190,96 @@ impl<'i, V> MultiMap<&'i str, V> {
             r is Some <==> self@.contains_key(k),
             r matches Some(v) ==> v@ == self@[k],
     { unimplemented!() }
+}
+
+// the three iterators of a MultiMap (multimap 0.9.1 src/lib.rs):
+//   iter()      = inner.iter().map(|(k, v)| (k, &v[0]))       -- ONE pair per key: the FIRST value stored under it
+//   flat_iter() = iter_all().flat_map(|(k, v)| v.iter().map(move |i| (k, i)))     -- every (key, value) pair
+//   iter_all()  = inner.iter()                                 -- (key, vector) pairs
+// assumed as for HashMap::iter in vstd: they yield every such pair and only such pairs, and terminate; every stored vector has
+// at least one value (`insert` creates `vec![v]` or pushes; nothing here removes).
+#[verifier::external_body]
+#[verifier::reject_recursive_types(K)]
+#[verifier::accept_recursive_types(V)]
+pub struct MultiIter<'a, K, V> { inner: std::collections::hash_map::Iter<'a, K, Vec<V>> }
+impl<'a, K, V> Iterator for MultiIter<'a, K, V> {
+    type Item = (&'a K, &'a V);
+    #[verifier::external_body]
+    fn next(&mut self) -> (r: Option<(&'a K, &'a V)>) { unimplemented!() }
+}
+impl<'a, K, V> vstd::std_specs::iter::IteratorSpecImpl for MultiIter<'a, K, V> {
+    open spec fn obeys_prophetic_iter_laws(&self) -> bool { true }
+    #[verifier::prophetic]
+    uninterp spec fn remaining(&self) -> Seq<(&'a K, &'a V)>;
+    #[verifier::prophetic]
+    open spec fn will_return_none(&self) -> bool { true }
+    uninterp spec fn decrease(&self) -> Option<nat>;
+    uninterp spec fn peek(&self, index: int) -> Option<(&'a K, &'a V)>;
+}
+#[verifier::external_body]
+#[verifier::reject_recursive_types(K)]
+#[verifier::accept_recursive_types(V)]
+pub struct MultiFlatIter<'a, K, V> { inner: std::collections::hash_map::Iter<'a, K, Vec<V>> }
+impl<'a, K, V> Iterator for MultiFlatIter<'a, K, V> {
+    type Item = (&'a K, &'a V);
+    #[verifier::external_body]
+    fn next(&mut self) -> (r: Option<(&'a K, &'a V)>) { unimplemented!() }
+}
+impl<'a, K, V> vstd::std_specs::iter::IteratorSpecImpl for MultiFlatIter<'a, K, V> {
+    open spec fn obeys_prophetic_iter_laws(&self) -> bool { true }
+    #[verifier::prophetic]
+    uninterp spec fn remaining(&self) -> Seq<(&'a K, &'a V)>;
+    #[verifier::prophetic]
+    open spec fn will_return_none(&self) -> bool { true }
+    uninterp spec fn decrease(&self) -> Option<nat>;
+    uninterp spec fn peek(&self, index: int) -> Option<(&'a K, &'a V)>;
+}
+impl<'i, V> MultiMap<&'i str, V> {
+    #[verifier::external_body]
+    pub fn iter<'a>(&'a self) -> (r: MultiIter<'a, &'i str, V>)
+        ensures
+            r.decrease() is Some,
+            forall|k: &'i str| #[trigger] self@.contains_key(k) ==> self@[k].len() > 0 && r.remaining().contains((&k, &self@[k][0])),
+            forall|j: int| 0 <= j < r.remaining().len() ==> self@.contains_key(*(#[trigger] r.remaining()[j]).0)
+                && self@[*r.remaining()[j].0].len() > 0 && *r.remaining()[j].1 == self@[*r.remaining()[j].0][0],
+    { unimplemented!() }
+    #[verifier::external_body]
+    pub fn flat_iter<'a>(&'a self) -> (r: MultiFlatIter<'a, &'i str, V>)
+        ensures
+            r.decrease() is Some,
+            forall|k: &'i str, m: int| self@.contains_key(k) && 0 <= m < self@[k].len() ==> r.remaining().contains((&k, &#[trigger] self@[k][m])),
+            forall|j: int| 0 <= j < r.remaining().len() ==> self@.contains_key(*(#[trigger] r.remaining()[j]).0)
+                && self@[*r.remaining()[j].0].contains(*r.remaining()[j].1),
+    { unimplemented!() }
+}
+
+// ---------------------------------------------------------------- shim: errors (lalrpop_util, parser/errors.rs, lexer Token; payloads irrelevant)
+pub enum ParseError<L, T, E> { InvalidToken { location: L }, ExtraToken { token: (L, T, L) }, User { error: E } }
+pub struct ErrorRecovery<L, T, E> { pub error: ParseError<L, T, E>, pub dropped_tokens: Vec<(L, T, L)> }
+pub enum Token<'i> { Call, New, Next, Fold, StringLiteral(&'i str) }
+pub struct ParserError { pub span: Span }
+impl ParserError {
+    #[verifier::external_body]
+    pub fn undefined_variable(span: Span, variable_name: &str) -> Self { unimplemented!() }
+    #[verifier::external_body]
+    pub fn undefined_iterable(span: Span, variable_name: &str) -> Self { unimplemented!() }
+    #[verifier::external_body]
+    pub fn invalid_iterator_restriction(span: Span, iterator_name: &str) -> Self { unimplemented!() }
+    #[verifier::external_body]
+    pub fn fold_has_instruction_after_next(span: Span) -> Self { unimplemented!() }
+}
+impl<'name> AfterNextCheckMachine<'name> {
+    #[verifier::external_body]
+    pub fn malformed_spans_iter(&self) -> core::slice::Iter<'_, Span> { unimplemented!() }
+}
+// `Iterator::last` (a provided method, which Verus cannot be given a specification for): the last of the remaining elements
+pub trait VerifLast: Iterator + Sized {
+    fn verif_last(self) -> (r: Option<Self::Item>)
+        ensures r == (if self.remaining().len() == 0 { None::<Self::Item> } else { Some(self.remaining().last()) });
+}
+impl<I: Iterator> VerifLast for I {
+    #[verifier::external_body]
+    fn verif_last(self) -> (r: Option<I::Item>) { self.last() }
 }
 
 // ---------------------------------------------------------------- shim: the after-next machine (opaque), instructions (opaque)
@@ -335,6 +428,10 @@ pub type JsonString = Rc<str>;
 //@ derive
 //@ pub-fields
 //@ end
+//@ lift crates/air-lib/air-parser/src/parser/validator.rs :: struct ValidatorErrorBuilder
+//@ derive
+//@ pub-fields
+//@ end
 
 // the derived Default (every field's Default); `new()` below is `<_>::default()`
 impl<'i> Default for AfterNextCheckMachine<'i> {
@@ -412,6 +509,29 @@ impl<'i> VariableValidator<'i> {
         self.nexts().contains_key(name) && self.nexts()[name].contains(span)
     }
 
+    // what finalize must have established when it reports nothing (C23, on the recorded lists):
+    // every recorded use is in scope ...
+    pub open spec fn all_recorded_uses_resolved(&self) -> bool {
+        forall|n: &'i str, s: Span| #[trigger] self.recorded_use(n, s) ==> self.resolved(n, s)
+    }
+    // ... and every next lies inside a fold that declares its iterator
+    pub open spec fn all_nexts_enclosed(&self) -> bool {
+        forall|n: &'i str, s: Span| #[trigger] self.next_recorded(n, s) ==> self.enclosing_iterator(n, s)
+    }
+    // what the code does guarantee about next today (KNOWN FINDING b): the FIRST next recorded for every iterator name
+    pub open spec fn first_nexts_enclosed(&self) -> bool {
+        forall|n: &'i str| #[trigger] self.nexts().contains_key(n) && self.nexts()[n].len() > 0 ==> self.enclosing_iterator(n, self.nexts()[n][0])
+    }
+    // the folds are the same set (sorting permutes them) and nothing else differs
+    pub open spec fn same_but_fold_order(&self, o: &VariableValidator<'i>) -> bool {
+        &&& forall|n: &'i str, s: Span| #[trigger] self.iterator_recorded(n, s) <==> o.iterator_recorded(n, s)
+        &&& self.met_variable_definitions == o.met_variable_definitions
+        &&& self.unresolved_variables == o.unresolved_variables
+        &&& self.unresolved_iterables == o.unresolved_iterables
+        &&& self.multiple_next_candidates == o.multiple_next_candidates
+        &&& self.not_iterators_candidates == o.not_iterators_candidates
+    }
+
     // `self` is a later state of `o`: definitions only move to the left, the three lists only grow
     #[verifier::opaque]
     pub open spec fn extends(&self, o: &VariableValidator<'i>) -> bool {
@@ -419,6 +539,30 @@ impl<'i> VariableValidator<'i> {
         &&& forall|n: &'i str, s: Span| #[trigger] o.iterator_recorded(n, s) ==> self.iterator_recorded(n, s)
         &&& forall|n: &'i str, s: Span| #[trigger] o.recorded_use(n, s) ==> self.recorded_use(n, s)
         &&& forall|n: &'i str, s: Span| #[trigger] o.next_recorded(n, s) ==> self.next_recorded(n, s)
+    }
+    // only uses were recorded (and the after-next machine may have moved)
+    pub open spec fn only_uses_added(&self, o: &VariableValidator<'i>) -> bool {
+        &&& self.met_variable_definitions == o.met_variable_definitions
+        &&& self.met_iterator_definitions == o.met_iterator_definitions
+        &&& self.unresolved_iterables == o.unresolved_iterables
+        &&& self.multiple_next_candidates == o.multiple_next_candidates
+        &&& self.not_iterators_candidates == o.not_iterators_candidates
+        &&& self.unsupported_map_keys == o.unsupported_map_keys
+        &&& self.unsupported_literal_errcodes == o.unsupported_literal_errcodes
+    }
+    // no fold iterator, no next was recorded
+    pub open spec fn no_fold_or_next_added(&self, o: &VariableValidator<'i>) -> bool {
+        &&& self.met_iterator_definitions == o.met_iterator_definitions
+        &&& self.unresolved_iterables == o.unresolved_iterables
+        &&& self.multiple_next_candidates == o.multiple_next_candidates
+        &&& self.not_iterators_candidates == o.not_iterators_candidates
+    }
+    pub open spec fn only_uses_added_but_errcodes(&self, o: &VariableValidator<'i>) -> bool {
+        &&& self.met_variable_definitions == o.met_variable_definitions
+        &&& self.met_iterator_definitions == o.met_iterator_definitions
+        &&& self.unresolved_iterables == o.unresolved_iterables
+        &&& self.multiple_next_candidates == o.multiple_next_candidates
+        &&& self.not_iterators_candidates == o.not_iterators_candidates
     }
     // everything but the after-next machine is the same
     pub open spec fn same_scoping_state(&self, o: &VariableValidator<'i>) -> bool {
@@ -431,6 +575,176 @@ impl<'i> VariableValidator<'i> {
         &&& self.unsupported_map_keys == o.unsupported_map_keys
         &&& self.unsupported_literal_errcodes == o.unsupported_literal_errcodes
     }
+}
+
+
+// ---------------------------------------------------------------- "n is a variable operand of ..." (from the definitions in ast/)
+// a lens uses the scalars it takes field names / indices from
+pub open spec fn accessor_uses<'i>(a: ValueAccessor<'i>, n: &'i str) -> bool { a == (ValueAccessor::FieldAccessByScalar { scalar_name: n }) }
+pub open spec fn lambda_uses<'i>(l: &LambdaAST<'i>, n: &'i str) -> bool {
+    match *l {
+        LambdaAST::ValuePath(p) => exists|k: int| 0 <= k < p.0@.len() && accessor_uses(#[trigger] p.0@[k], n),
+        LambdaAST::Functor(_) => false,
+    }
+}
+pub open spec fn opt_lambda_uses<'i>(l: &Option<LambdaAST<'i>>, n: &'i str) -> bool {
+    match *l { Some(l) => lambda_uses(&l, n), None => false }
+}
+pub open spec fn scalar_uses<'i>(s: &Scalar<'i>, n: &'i str) -> bool { s.name == n }
+pub open spec fn scalar_wl_uses<'i>(s: &ScalarWithLambda<'i>, n: &'i str) -> bool { s.name == n || lambda_uses(&s.lambda, n) }
+pub open spec fn canon_stream_uses<'i>(s: &CanonStream<'i>, n: &'i str) -> bool { s.name == n }
+pub open spec fn canon_stream_map_uses<'i>(s: &CanonStreamMap<'i>, n: &'i str) -> bool { s.name == n }
+pub open spec fn canon_stream_wl_uses<'i>(s: &CanonStreamWithLambda<'i>, n: &'i str) -> bool { s.name == n || lambda_uses(&s.lambda, n) }
+pub open spec fn canon_stream_map_wl_uses<'i>(s: &CanonStreamMapWithLambda<'i>, n: &'i str) -> bool { s.name == n || lambda_uses(&s.lambda, n) }
+pub open spec fn variable_name<'i>(v: &ImmutableVariable<'i>) -> &'i str {
+    match *v { ImmutableVariable::Scalar(s) => s.name, ImmutableVariable::CanonStream(s) => s.name, ImmutableVariable::CanonStreamMap(s) => s.name }
+}
+pub open spec fn variable_wl_name<'i>(v: &ImmutableVariableWithLambda<'i>) -> &'i str {
+    match *v { ImmutableVariableWithLambda::Scalar(s) => s.name, ImmutableVariableWithLambda::CanonStream(s) => s.name, ImmutableVariableWithLambda::CanonStreamMap(s) => s.name }
+}
+pub open spec fn variable_wl_lambda<'i>(v: &ImmutableVariableWithLambda<'i>) -> LambdaAST<'i> {
+    match *v { ImmutableVariableWithLambda::Scalar(s) => s.lambda, ImmutableVariableWithLambda::CanonStream(s) => s.lambda, ImmutableVariableWithLambda::CanonStreamMap(s) => s.lambda }
+}
+pub open spec fn variable_uses<'i>(v: &ImmutableVariable<'i>, n: &'i str) -> bool { variable_name(v) == n }
+pub open spec fn variable_wl_uses<'i>(v: &ImmutableVariableWithLambda<'i>, n: &'i str) -> bool {
+    variable_wl_name(v) == n || lambda_uses(&variable_wl_lambda(v), n)
+}
+pub open spec fn peer_uses<'i>(p: &ResolvableToPeerIdVariable<'i>, n: &'i str) -> bool {
+    match *p {
+        ResolvableToPeerIdVariable::InitPeerId | ResolvableToPeerIdVariable::Literal(_) => false,
+        ResolvableToPeerIdVariable::Scalar(s) => scalar_uses(&s, n),
+        ResolvableToPeerIdVariable::ScalarWithLambda(s) => scalar_wl_uses(&s, n),
+        ResolvableToPeerIdVariable::CanonStreamWithLambda(s) => canon_stream_wl_uses(&s, n),
+        ResolvableToPeerIdVariable::CanonStreamMapWithLambda(s) => canon_stream_map_wl_uses(&s, n),
+    }
+}
+pub open spec fn string_uses<'i>(p: &ResolvableToStringVariable<'i>, n: &'i str) -> bool {
+    match *p {
+        ResolvableToStringVariable::Literal(_) => false,
+        ResolvableToStringVariable::Scalar(s) => scalar_uses(&s, n),
+        ResolvableToStringVariable::ScalarWithLambda(s) => scalar_wl_uses(&s, n),
+        ResolvableToStringVariable::CanonStreamWithLambda(s) => canon_stream_wl_uses(&s, n),
+        ResolvableToStringVariable::CanonStreamMapWithLambda(s) => canon_stream_map_wl_uses(&s, n),
+    }
+}
+// an argument of call / an operand of match: a variable, a variable with a lens, or the lens of %last_error% / :error:
+pub open spec fn value_uses<'i>(v: &ImmutableValue<'i>, n: &'i str) -> bool {
+    match *v {
+        ImmutableValue::Variable(var) => variable_uses(&var, n),
+        ImmutableValue::VariableWithLambda(var) => variable_wl_uses(&var, n),
+        ImmutableValue::LastError(l) => opt_lambda_uses(&l, n),
+        ImmutableValue::Error(e) => opt_lambda_uses(&e.lens, n),
+        _ => false,
+    }
+}
+pub open spec fn args_use<'i>(args: Seq<ImmutableValue<'i>>, n: &'i str) -> bool {
+    exists|k: int| 0 <= k < args.len() && value_uses(&#[trigger] args[k], n)
+}
+pub open spec fn ap_argument_uses<'i>(a: &ApArgument<'i>, n: &'i str) -> bool {
+    match *a {
+        ApArgument::Scalar(s) => scalar_uses(&s, n),
+        ApArgument::ScalarWithLambda(s) => scalar_wl_uses(&s, n),
+        ApArgument::CanonStream(s) => canon_stream_uses(&s, n),
+        ApArgument::CanonStreamMap(s) => canon_stream_map_uses(&s, n),
+        ApArgument::CanonStreamWithLambda(s) => canon_stream_wl_uses(&s, n),
+        ApArgument::CanonStreamMapWithLambda(s) => canon_stream_map_wl_uses(&s, n),
+        ApArgument::LastError(l) => opt_lambda_uses(&l, n),
+        ApArgument::Error(e) => opt_lambda_uses(&e.lens, n),
+        _ => false,
+    }
+}
+pub open spec fn map_key_uses<'i>(k: &StreamMapKeyClause<'i>, n: &'i str) -> bool {
+    match *k {
+        StreamMapKeyClause::Literal(_) | StreamMapKeyClause::Int(_) => false,
+        StreamMapKeyClause::Scalar(s) => scalar_uses(&s, n),
+        StreamMapKeyClause::ScalarWithLambda(s) => scalar_wl_uses(&s, n),
+        StreamMapKeyClause::CanonStreamWithLambda(s) => canon_stream_wl_uses(&s, n),
+    }
+}
+pub open spec fn fold_scalar_iterable_uses<'i>(it: &FoldScalarIterable<'i>, n: &'i str) -> bool {
+    match *it {
+        FoldScalarIterable::Scalar(s) => scalar_uses(&s, n),
+        FoldScalarIterable::ScalarWithLambda(s) => scalar_wl_uses(&s, n),
+        FoldScalarIterable::CanonStream(s) => canon_stream_uses(&s, n),
+        FoldScalarIterable::CanonStreamMap(s) => canon_stream_map_uses(&s, n),
+        FoldScalarIterable::CanonStreamMapWithLambda(s) => canon_stream_map_wl_uses(&s, n),
+        FoldScalarIterable::EmptyArray => false,
+    }
+}
+// ---- whole instructions: their variable operands (uses) ...
+pub open spec fn call_uses<'i>(c: &Call<'i>, n: &'i str) -> bool {
+    peer_uses(&c.triplet.peer_id, n) || string_uses(&c.triplet.service_id, n) || string_uses(&c.triplet.function_name, n) || args_use(c.args@, n)
+}
+// canon: the peer; the source stream / map is deliberately not a checked use ("empty streams are considered to be empty")
+pub open spec fn canon_uses<'i>(c: &Canon<'i>, n: &'i str) -> bool { peer_uses(&c.peer_id, n) }
+pub open spec fn canon_map_uses<'i>(c: &CanonMap<'i>, n: &'i str) -> bool { peer_uses(&c.peer_id, n) }
+pub open spec fn canon_map_scalar_uses<'i>(c: &CanonStreamMapScalar<'i>, n: &'i str) -> bool { peer_uses(&c.peer_id, n) }
+pub open spec fn match_uses<'i>(m: &Match<'i>, n: &'i str) -> bool { value_uses(&m.left_value, n) || value_uses(&m.right_value, n) }
+pub open spec fn mismatch_uses<'i>(m: &MisMatch<'i>, n: &'i str) -> bool { value_uses(&m.left_value, n) || value_uses(&m.right_value, n) }
+pub open spec fn ap_uses<'i>(a: &Ap<'i>, n: &'i str) -> bool { ap_argument_uses(&a.argument, n) }
+pub open spec fn ap_map_uses<'i>(a: &ApMap<'i>, n: &'i str) -> bool { map_key_uses(&a.key, n) || ap_argument_uses(&a.value, n) }
+pub open spec fn fold_scalar_uses<'i>(f: &FoldScalar<'i>, n: &'i str) -> bool { fold_scalar_iterable_uses(&f.iterable, n) }
+pub open spec fn fold_stream_uses<'i>(f: &FoldStream<'i>, n: &'i str) -> bool { f.iterable.name == n }
+pub open spec fn fold_stream_map_uses<'i>(f: &FoldStreamMap<'i>, n: &'i str) -> bool { f.iterable.name == n }
+pub open spec fn fail_uses<'i>(f: &Fail<'i>, n: &'i str) -> bool {
+    match *f {
+        Fail::Scalar(s) => scalar_uses(&s, n),
+        Fail::ScalarWithLambda(s) => scalar_wl_uses(&s, n),
+        Fail::CanonStreamWithLambda(s) => canon_stream_wl_uses(&s, n),
+        _ => false,
+    }
+}
+// ---- ... and the names they define
+pub open spec fn new_argument_name<'i>(a: &NewArgument<'i>) -> &'i str {
+    match *a {
+        NewArgument::Scalar(s) => s.name, NewArgument::Stream(s) => s.name, NewArgument::StreamMap(s) => s.name,
+        NewArgument::CanonStream(s) => s.name, NewArgument::CanonStreamMap(s) => s.name,
+    }
+}
+pub open spec fn ap_result_name<'i>(a: &ApResult<'i>) -> &'i str {
+    match *a { ApResult::Scalar(s) => s.name, ApResult::Stream(s) => s.name }
+}
+
+
+// ---------------------------------------------------------------- name() / lambda() of the AST (ast/values/impls.rs, ast/instruction_arguments/impls.rs; lifted)
+impl<'i> ImmutableVariable<'i> {
+//@ lift crates/air-lib/air-parser/src/ast/values/impls.rs :: impl<'i> ImmutableVariable<'i> :: fn name
+//@ props C23
+//@ ret r
+//@ spec
+        ensures r == variable_name(self)
+//@ end
+}
+impl<'i> ImmutableVariableWithLambda<'i> {
+//@ lift crates/air-lib/air-parser/src/ast/values/impls.rs :: impl<'i> ImmutableVariableWithLambda<'i> :: fn name
+//@ props C23
+//@ ret r
+//@ spec
+        ensures r == variable_wl_name(self)
+//@ end
+
+//@ lift crates/air-lib/air-parser/src/ast/values/impls.rs :: impl<'i> ImmutableVariableWithLambda<'i> :: fn lambda
+//@ props C23
+//@ ret r
+//@ spec
+        ensures *r == variable_wl_lambda(self)
+//@ end
+}
+impl<'i> NewArgument<'i> {
+//@ lift crates/air-lib/air-parser/src/ast/instruction_arguments/impls.rs :: impl<'i> NewArgument<'i> :: fn name
+//@ props C23
+//@ ret r
+//@ spec
+        ensures r == new_argument_name(self)
+//@ end
+}
+impl<'i> ApResult<'i> {
+//@ lift crates/air-lib/air-parser/src/ast/instruction_arguments/impls.rs :: impl<'i> ApResult<'i> :: fn name
+//@ props C23
+//@ ret r
+//@ spec
+        ensures r == ap_result_name(self)
+//@ end
 }
 
 // ---------------------------------------------------------------- lemmas (broadcast in module `callbacks`)
@@ -481,6 +795,32 @@ pub mod lemmas {
     }
 //@ end
 
+    // the order of the folds of one iterator is irrelevant to scoping
+//@ lemma fold_order_is_irrelevant props C23
+    pub proof fn fold_order_is_irrelevant<'i>(a: &VariableValidator<'i>, b: &VariableValidator<'i>, name: &'i str, span: Span)
+        requires b.same_but_fold_order(a)
+        ensures b.enclosing_iterator(name, span) == a.enclosing_iterator(name, span), b.resolved(name, span) == a.resolved(name, span),
+            b.recorded_use(name, span) == a.recorded_use(name, span), b.next_recorded(name, span) == a.next_recorded(name, span),
+    {
+        if a.enclosing_iterator(name, span) {
+            let k = choose|k: int| 0 <= k < a.iter_defs()[name].len() && span_encloses(#[trigger] a.iter_defs()[name][k], span);
+            let s = a.iter_defs()[name][k];
+            assert(a.iterator_recorded(name, s));
+            assert(b.iterator_recorded(name, s));
+            let k2 = choose|k2: int| 0 <= k2 < b.iter_defs()[name].len() && b.iter_defs()[name][k2] == s;
+            assert(span_encloses(b.iter_defs()[name][k2], span));
+        }
+        if b.enclosing_iterator(name, span) {
+            let k = choose|k: int| 0 <= k < b.iter_defs()[name].len() && span_encloses(#[trigger] b.iter_defs()[name][k], span);
+            let s = b.iter_defs()[name][k];
+            assert(b.iterator_recorded(name, s));
+            assert(a.iterator_recorded(name, s));
+            let k2 = choose|k2: int| 0 <= k2 < a.iter_defs()[name].len() && a.iter_defs()[name][k2] == s;
+            assert(span_encloses(a.iter_defs()[name][k2], span));
+        }
+    }
+//@ end
+
     // so do a recorded definition, a recorded fold iterator and a recorded next
 //@ lemma records_are_stable props C23
     pub broadcast proof fn def_recorded_is_stable<'i>(old_v: &VariableValidator<'i>, new_v: &VariableValidator<'i>, name: &'i str, span: Span)
@@ -503,6 +843,7 @@ pub mod callbacks {
     use vstd::prelude::*;
     use vstd::std_specs::iter::IteratorSpec;
     use std::collections::HashMap;
+    use std::ops::Deref;
     use super::*;
     broadcast use {vstd::std_specs::hash::group_hash_axioms, super::key_model::axiom_str_ref_obeys_key_model, super::key_model::axiom_str_ref_borrows_str,
         super::key_model::axiom_str_ref_borrows_str_value, super::seq_lemmas::lemma_push_contains,
@@ -519,12 +860,12 @@ impl<'i> VariableValidator<'i> {
 //@ end
 
 // C23: a use counts as resolved only by a definition that starts earlier or by a fold with that iterator that ENCLOSES it
-// rewrite: the closure gets its annotated form (result = what `<` on spans computes), and the receiver of `.any` is let-bound so that
+// rewrite: the closure gets its annotated form (result = what `contains_span` computes), and the receiver of `.any` is let-bound so that
 // ghost code can name the iterator (`it.remaining()[k]` is the k-th element of the vector)
 //@ lift crates/air-lib/air-parser/src/parser/validator.rs :: impl<'i> VariableValidator<'i> :: fn contains_variable
 //@ props C23
 //@ ret r
-//@ rewrite 1 "found_spans.iter().any(|s| s < &key_span)" => "{ let mut it = found_spans.iter(); proof { assert(forall|k: int| 0 <= k < found_spans@.len() ==> *it.remaining()[k] == found_spans@[k]); } it.any(|s: &Span| -> (b: bool) ensures b == span_before(*s, key_span) { s < &key_span }) }"
+//@ rewrite 1 "found_spans.iter().any(|s| s.contains_span(key_span))" => "{ let mut it = found_spans.iter(); proof { assert(forall|k: int| 0 <= k < found_spans@.len() ==> *it.remaining()[k] == found_spans@[k]); } it.any(|s: &Span| -> (b: bool) ensures b == span_encloses(*s, key_span) { s.contains_span(key_span) }) }"
 //@ spec
         ensures
             // C23: whatever is taken for resolved is in scope in the property's sense
@@ -535,23 +876,23 @@ impl<'i> VariableValidator<'i> {
 
 //@ lift crates/air-lib/air-parser/src/parser/validator.rs :: impl<'i> VariableValidator<'i> :: fn met_variable_name
 //@ props C23
+//@ before "if !self.contains_variable(name, span)"
+        proof { reveal(VariableValidator::extends); }
 //@ spec
         ensures
             final(self).use_covered(name, span),
             // exactly: nothing happens if the use is resolved already, else it is appended to the list of `name`
             old(self).resolved(name, span) ==> *final(self) == *old(self),
             !old(self).resolved(name, span) ==> final(self).unresolved() == old(self).unresolved().insert(name, values_of(old(self).unresolved(), name).push(span)),
-            final(self).met_variable_definitions == old(self).met_variable_definitions,
-            final(self).met_iterator_definitions == old(self).met_iterator_definitions,
-            final(self).unresolved_iterables == old(self).unresolved_iterables,
-            final(self).multiple_next_candidates == old(self).multiple_next_candidates,
-            final(self).not_iterators_candidates == old(self).not_iterators_candidates,
+            final(self).only_uses_added(old(self)),
             final(self).extends(old(self)),
 //@ end
 
 // keeps the LEFT-MOST definition
 //@ lift crates/air-lib/air-parser/src/parser/validator.rs :: impl<'i> VariableValidator<'i> :: fn met_variable_name_definition
 //@ props C23
+//@ before "use std::collections::hash_map::Entry;"
+        proof { reveal(VariableValidator::extends); }
 //@ spec
         ensures
             final(self).def_recorded(name, span),
@@ -566,6 +907,8 @@ impl<'i> VariableValidator<'i> {
 
 //@ lift crates/air-lib/air-parser/src/parser/validator.rs :: impl<'i> VariableValidator<'i> :: fn met_iterator_definition
 //@ props C23
+//@ before "self.met_iterator_definitions.insert(iterator.name, span);"
+        proof { reveal(VariableValidator::extends); }
 //@ spec
         ensures
             final(self).iterator_recorded(iterator.name, span),
@@ -576,6 +919,560 @@ impl<'i> VariableValidator<'i> {
             final(self).multiple_next_candidates == old(self).multiple_next_candidates,
             final(self).not_iterators_candidates == old(self).not_iterators_candidates,
             final(self).extends(old(self)),
+//@ end
+
+// ---- the after-next machine's inputs: nothing about scoping changes
+
+//@ lift crates/air-lib/air-parser/src/parser/validator.rs :: impl<'i> VariableValidator<'i> :: fn met_merging_instr
+//@ props C23
+//@ spec
+        ensures final(self).same_scoping_state(old(self))
+//@ end
+
+//@ lift crates/air-lib/air-parser/src/parser/validator.rs :: impl<'i> VariableValidator<'i> :: fn met_pivotalnext_instr
+//@ props C23
+//@ spec
+        ensures final(self).same_scoping_state(old(self))
+//@ end
+
+//@ lift crates/air-lib/air-parser/src/parser/validator.rs :: impl<'i> VariableValidator<'i> :: fn met_popstack_instr
+//@ props C23
+//@ spec
+        ensures final(self).same_scoping_state(old(self))
+//@ end
+
+//@ lift crates/air-lib/air-parser/src/parser/validator.rs :: impl<'i> VariableValidator<'i> :: fn met_popstack_replacing_with_check_instr
+//@ props C23
+//@ spec
+        ensures final(self).same_scoping_state(old(self))
+//@ end
+
+//@ lift crates/air-lib/air-parser/src/parser/validator.rs :: impl<'i> VariableValidator<'i> :: fn met_replacing_instr
+//@ props C23
+//@ spec
+        ensures final(self).same_scoping_state(old(self))
+//@ end
+
+//@ lift crates/air-lib/air-parser/src/parser/validator.rs :: impl<'i> VariableValidator<'i> :: fn met_replacing_with_check_instr
+//@ props C23
+//@ spec
+        ensures final(self).same_scoping_state(old(self))
+//@ end
+
+//@ lift crates/air-lib/air-parser/src/parser/validator.rs :: impl<'i> VariableValidator<'i> :: fn met_xoring_instr
+//@ props C23
+//@ spec
+        ensures final(self).same_scoping_state(old(self))
+//@ end
+
+//@ lift crates/air-lib/air-parser/src/parser/validator.rs :: impl<'i> VariableValidator<'i> :: fn met_simple_instr
+//@ props C23
+//@ spec
+        ensures final(self).same_scoping_state(old(self))
+//@ end
+
+// ---- routers: every variable operand of the argument is covered as a use at `span`; nothing but uses is recorded
+
+//@ lift crates/air-lib/air-parser/src/parser/validator.rs :: impl<'i> VariableValidator<'i> :: fn met_scalar
+//@ props C23
+//@ spec
+        ensures
+            forall|n: &'i str| #[trigger] scalar_uses(scalar, n) ==> final(self).use_covered(n, span),
+            final(self).extends(old(self)), final(self).only_uses_added(old(self)),
+//@ end
+
+//@ lift crates/air-lib/air-parser/src/parser/validator.rs :: impl<'i> VariableValidator<'i> :: fn met_scalar_wl
+//@ props C23
+//@ spec
+        ensures
+            forall|n: &'i str| #[trigger] scalar_wl_uses(scalar, n) ==> final(self).use_covered(n, span),
+            final(self).extends(old(self)), final(self).only_uses_added(old(self)),
+//@ end
+
+//@ lift crates/air-lib/air-parser/src/parser/validator.rs :: impl<'i> VariableValidator<'i> :: fn met_canon_stream
+//@ props C23
+//@ spec
+        ensures
+            forall|n: &'i str| #[trigger] canon_stream_uses(stream, n) ==> final(self).use_covered(n, span),
+            final(self).extends(old(self)), final(self).only_uses_added(old(self)),
+//@ end
+
+//@ lift crates/air-lib/air-parser/src/parser/validator.rs :: impl<'i> VariableValidator<'i> :: fn met_canon_stream_map
+//@ props C23
+//@ spec
+        ensures
+            forall|n: &'i str| #[trigger] canon_stream_map_uses(canon_stream_map, n) ==> final(self).use_covered(n, span),
+            final(self).extends(old(self)), final(self).only_uses_added(old(self)),
+//@ end
+
+//@ lift crates/air-lib/air-parser/src/parser/validator.rs :: impl<'i> VariableValidator<'i> :: fn met_canon_stream_wl
+//@ props C23
+//@ spec
+        ensures
+            forall|n: &'i str| #[trigger] canon_stream_wl_uses(stream, n) ==> final(self).use_covered(n, span),
+            final(self).extends(old(self)), final(self).only_uses_added(old(self)),
+//@ end
+
+//@ lift crates/air-lib/air-parser/src/parser/validator.rs :: impl<'i> VariableValidator<'i> :: fn met_canon_stream_map_wl
+//@ props C23
+//@ spec
+        ensures
+            forall|n: &'i str| #[trigger] canon_stream_map_wl_uses(stream_map, n) ==> final(self).use_covered(n, span),
+            final(self).extends(old(self)), final(self).only_uses_added(old(self)),
+//@ end
+
+//@ lift crates/air-lib/air-parser/src/parser/validator.rs :: impl<'i> VariableValidator<'i> :: fn met_variable
+//@ props C23
+//@ spec
+        ensures
+            forall|n: &'i str| #[trigger] variable_uses(variable, n) ==> final(self).use_covered(n, span),
+            final(self).extends(old(self)), final(self).only_uses_added(old(self)),
+//@ end
+
+//@ lift crates/air-lib/air-parser/src/parser/validator.rs :: impl<'i> VariableValidator<'i> :: fn met_variable_wl
+//@ props C23
+//@ spec
+        ensures
+            forall|n: &'i str| #[trigger] variable_wl_uses(variable, n) ==> final(self).use_covered(n, span),
+            final(self).extends(old(self)), final(self).only_uses_added(old(self)),
+//@ end
+
+//@ lift crates/air-lib/air-parser/src/parser/validator.rs :: impl<'i> VariableValidator<'i> :: fn met_optional_lambda
+//@ props C23
+//@ spec
+        ensures
+            forall|n: &'i str| #[trigger] opt_lambda_uses(lambda, n) ==> final(self).use_covered(n, span),
+            final(self).extends(old(self)), final(self).only_uses_added(old(self)),
+//@ end
+
+//@ lift crates/air-lib/air-parser/src/parser/validator.rs :: impl<'i> VariableValidator<'i> :: fn met_peer_id_resolvable_value
+//@ props C23
+//@ spec
+        ensures
+            forall|n: &'i str| #[trigger] peer_uses(variable, n) ==> final(self).use_covered(n, span),
+            final(self).extends(old(self)), final(self).only_uses_added(old(self)),
+//@ end
+
+//@ lift crates/air-lib/air-parser/src/parser/validator.rs :: impl<'i> VariableValidator<'i> :: fn met_string_resolvable_value
+//@ props C23
+//@ spec
+        ensures
+            forall|n: &'i str| #[trigger] string_uses(variable, n) ==> final(self).use_covered(n, span),
+            final(self).extends(old(self)), final(self).only_uses_added(old(self)),
+//@ end
+
+//@ lift crates/air-lib/air-parser/src/parser/validator.rs :: impl<'i> VariableValidator<'i> :: fn met_instr_arg_value
+//@ props C23
+//@ spec
+        ensures
+            forall|n: &'i str| #[trigger] value_uses(instr_arg_value, n) ==> final(self).use_covered(n, span),
+            final(self).extends(old(self)), final(self).only_uses_added(old(self)),
+//@ end
+
+//@ lift crates/air-lib/air-parser/src/parser/validator.rs :: impl<'i> VariableValidator<'i> :: fn met_matchable
+//@ props C23
+//@ spec
+        ensures
+            forall|n: &'i str| #[trigger] value_uses(matchable, n) ==> final(self).use_covered(n, span),
+            final(self).extends(old(self)), final(self).only_uses_added(old(self)),
+//@ end
+
+//@ lift crates/air-lib/air-parser/src/parser/validator.rs :: impl<'i> VariableValidator<'i> :: fn met_ap_argument
+//@ props C23
+//@ spec
+        ensures
+            forall|n: &'i str| #[trigger] ap_argument_uses(argument, n) ==> final(self).use_covered(n, span),
+            final(self).extends(old(self)), final(self).only_uses_added(old(self)),
+//@ end
+
+//@ lift crates/air-lib/air-parser/src/parser/validator.rs :: impl<'i> VariableValidator<'i> :: fn met_map_key
+//@ props C23
+//@ spec
+        ensures
+            forall|n: &'i str| #[trigger] map_key_uses(key, n) ==> final(self).use_covered(n, span),
+            final(self).extends(old(self)), final(self).only_uses_added(old(self)),
+//@ end
+
+//@ lift crates/air-lib/air-parser/src/parser/validator.rs :: impl<'i> VariableValidator<'i> :: fn met_lambda
+//@ props C23
+//@ rewrite 1 "for accessor in accessors.iter()" => "for accessor in it: accessors.iter()"
+//@ rewrite 1 "match accessor {" => "match *accessor {"
+//@ before "match accessor {"
+            assert(it.seq()[it.index()] == accessor);
+//@ rewrite 1 "&ValueAccessor::FieldAccessByScalar { scalar_name } =>" => "ValueAccessor::FieldAccessByScalar { scalar_name } =>"
+//@ spec
+        ensures
+            forall|n: &'i str| #[trigger] lambda_uses(lambda, n) ==> final(self).use_covered(n, span),
+            final(self).extends(old(self)), final(self).only_uses_added(old(self)),
+//@ loop 0
+            invariant
+                it.seq().len() == accessors.0@.len(),
+                forall|k: int| 0 <= k < it.seq().len() ==> *it.seq()[k] == accessors.0@[k],
+                forall|k: int, n: &'i str| 0 <= k < it.index() && #[trigger] accessor_uses(accessors.0@[k], n) ==> self.use_covered(n, span),
+                self.extends(old(self)), self.only_uses_added(old(self)),
+//@ end
+
+//@ lift crates/air-lib/air-parser/src/parser/validator.rs :: impl<'i> VariableValidator<'i> :: fn met_args
+//@ props C23
+//@ rewrite 1 "for arg in args" => "for arg in it: args.iter()"
+//@ before "self.met_instr_arg_value(arg, span);"
+            assert(it.seq()[it.index()] == arg);
+//@ spec
+        ensures
+            forall|n: &'i str| #[trigger] args_use(args@, n) ==> final(self).use_covered(n, span),
+            final(self).extends(old(self)), final(self).only_uses_added(old(self)),
+//@ loop 0
+            invariant
+                it.seq().len() == args@.len(),
+                forall|k: int| 0 <= k < it.seq().len() ==> *it.seq()[k] == args@[k],
+                forall|k: int, n: &'i str| 0 <= k < it.index() && #[trigger] value_uses(&args@[k], n) ==> self.use_covered(n, span),
+                self.extends(old(self)), self.only_uses_added(old(self)),
+//@ end
+
+// ---- the callbacks of the grammar actions (one per instruction; air.lalrpop calls them with the instruction's span):
+//      every variable operand is covered as a use at `span`, every output is recorded as a definition / fold iterator / next at `span`
+
+//@ lift crates/air-lib/air-parser/src/parser/validator.rs :: impl<'i> VariableValidator<'i> :: fn met_call
+//@ props C23
+//@ spec
+        ensures
+            forall|n: &'i str| #[trigger] call_uses(call, n) ==> final(self).use_covered(n, span),
+            call.output matches CallOutputValue::Scalar(s) ==> final(self).def_recorded(s.name, span),
+            call.output matches CallOutputValue::Stream(s) ==> final(self).def_recorded(s.name, span),
+            final(self).extends(old(self)), final(self).no_fold_or_next_added(old(self)),
+//@ end
+
+//@ lift crates/air-lib/air-parser/src/parser/validator.rs :: impl<'i> VariableValidator<'i> :: fn met_canon
+//@ props C23
+//@ spec
+        ensures
+            forall|n: &'i str| #[trigger] canon_uses(canon, n) ==> final(self).use_covered(n, span),
+            final(self).def_recorded(canon.canon_stream.name, span),
+            final(self).extends(old(self)), final(self).no_fold_or_next_added(old(self)),
+//@ end
+
+//@ lift crates/air-lib/air-parser/src/parser/validator.rs :: impl<'i> VariableValidator<'i> :: fn met_canon_map
+//@ props C23
+//@ spec
+        ensures
+            forall|n: &'i str| #[trigger] canon_map_uses(canon_map, n) ==> final(self).use_covered(n, span),
+            final(self).def_recorded(canon_map.canon_stream_map.name, span),
+            final(self).extends(old(self)), final(self).no_fold_or_next_added(old(self)),
+//@ end
+
+//@ lift crates/air-lib/air-parser/src/parser/validator.rs :: impl<'i> VariableValidator<'i> :: fn met_canon_map_scalar
+//@ props C23
+//@ spec
+        ensures
+            forall|n: &'i str| #[trigger] canon_map_scalar_uses(canon_stream_map_scalar, n) ==> final(self).use_covered(n, span),
+            final(self).def_recorded(canon_stream_map_scalar.scalar.name, span),
+            final(self).extends(old(self)), final(self).no_fold_or_next_added(old(self)),
+//@ end
+
+//@ lift crates/air-lib/air-parser/src/parser/validator.rs :: impl<'i> VariableValidator<'i> :: fn met_match
+//@ props C23
+//@ spec
+        ensures
+            forall|n: &'i str| #[trigger] match_uses(match_, n) ==> final(self).use_covered(n, span),
+            final(self).extends(old(self)), final(self).only_uses_added(old(self)),
+//@ end
+
+//@ lift crates/air-lib/air-parser/src/parser/validator.rs :: impl<'i> VariableValidator<'i> :: fn met_mismatch
+//@ props C23
+//@ spec
+        ensures
+            forall|n: &'i str| #[trigger] mismatch_uses(mismatch, n) ==> final(self).use_covered(n, span),
+            final(self).extends(old(self)), final(self).only_uses_added(old(self)),
+//@ end
+
+//@ lift crates/air-lib/air-parser/src/parser/validator.rs :: impl<'i> VariableValidator<'i> :: fn met_fold_scalar
+//@ props C23
+//@ spec
+        ensures
+            // the iterable is a use, the iterator is declared by the fold at `span`
+            forall|n: &'i str| #[trigger] fold_scalar_uses(fold, n) ==> final(self).use_covered(n, span),
+            final(self).iterator_recorded(fold.iterator.name, span),
+            final(self).iter_defs() == old(self).iter_defs().insert(fold.iterator.name, values_of(old(self).iter_defs(), fold.iterator.name).push(span)),
+            final(self).extends(old(self)),
+            final(self).met_variable_definitions == old(self).met_variable_definitions, final(self).unresolved_iterables == old(self).unresolved_iterables,
+//@ end
+
+//@ lift crates/air-lib/air-parser/src/parser/validator.rs :: impl<'i> VariableValidator<'i> :: fn meet_fold_stream
+//@ props C23
+//@ spec
+        ensures
+            // the iterable is a use, the iterator is declared by the fold at `span`
+            forall|n: &'i str| #[trigger] fold_stream_uses(fold, n) ==> final(self).use_covered(n, span),
+            final(self).iterator_recorded(fold.iterator.name, span),
+            final(self).iter_defs() == old(self).iter_defs().insert(fold.iterator.name, values_of(old(self).iter_defs(), fold.iterator.name).push(span)),
+            final(self).extends(old(self)),
+            final(self).met_variable_definitions == old(self).met_variable_definitions, final(self).unresolved_iterables == old(self).unresolved_iterables,
+//@ end
+
+//@ lift crates/air-lib/air-parser/src/parser/validator.rs :: impl<'i> VariableValidator<'i> :: fn meet_fold_stream_map
+//@ props C23
+//@ spec
+        ensures
+            // the iterable is a use, the iterator is declared by the fold at `span`
+            forall|n: &'i str| #[trigger] fold_stream_map_uses(fold, n) ==> final(self).use_covered(n, span),
+            final(self).iterator_recorded(fold.iterator.name, span),
+            final(self).iter_defs() == old(self).iter_defs().insert(fold.iterator.name, values_of(old(self).iter_defs(), fold.iterator.name).push(span)),
+            final(self).extends(old(self)),
+            final(self).met_variable_definitions == old(self).met_variable_definitions, final(self).unresolved_iterables == old(self).unresolved_iterables,
+//@ end
+
+//@ lift crates/air-lib/air-parser/src/parser/validator.rs :: impl<'i> VariableValidator<'i> :: fn met_new
+//@ props C23
+//@ before "self.not_iterators_candidates"
+        proof { reveal(VariableValidator::extends); }
+//@ spec
+        ensures
+            // new defines its argument from its own start on, and the name goes on the list of names that must not be iterators
+            final(self).def_recorded(new_argument_name(&new.argument), span),
+            final(self).not_iterators_candidates@ == old(self).not_iterators_candidates@.push((new_argument_name(&new.argument), span)),
+            final(self).extends(old(self)),
+            final(self).unresolved_variables == old(self).unresolved_variables, final(self).met_iterator_definitions == old(self).met_iterator_definitions,
+            final(self).unresolved_iterables == old(self).unresolved_iterables,
+//@ end
+
+//@ lift crates/air-lib/air-parser/src/parser/validator.rs :: impl<'i> VariableValidator<'i> :: fn met_next
+//@ props C23
+//@ before "let iterable_name = next.iterator.name;"
+        proof { reveal(VariableValidator::extends); }
+//@ spec
+        ensures
+            // a next is always recorded: its fold is reduced later
+            final(self).next_recorded(next.iterator.name, span),
+            final(self).nexts() == old(self).nexts().insert(next.iterator.name, values_of(old(self).nexts(), next.iterator.name).push(span)),
+            final(self).multiple_next_candidates@ == old(self).multiple_next_candidates@.insert(next.iterator.name, values_of(old(self).multiple_next_candidates@, next.iterator.name).push(span)),
+            final(self).extends(old(self)),
+            final(self).unresolved_variables == old(self).unresolved_variables, final(self).met_iterator_definitions == old(self).met_iterator_definitions,
+            final(self).met_variable_definitions == old(self).met_variable_definitions,
+//@ end
+
+//@ lift crates/air-lib/air-parser/src/parser/validator.rs :: impl<'i> VariableValidator<'i> :: fn met_ap
+//@ props C23
+//@ spec
+        ensures
+            forall|n: &'i str| #[trigger] ap_uses(ap, n) ==> final(self).use_covered(n, span),
+            final(self).def_recorded(ap_result_name(&ap.result), span),
+            final(self).extends(old(self)), final(self).no_fold_or_next_added(old(self)),
+//@ end
+
+//@ lift crates/air-lib/air-parser/src/parser/validator.rs :: impl<'i> VariableValidator<'i> :: fn met_ap_map
+//@ props C23
+//@ spec
+        ensures
+            forall|n: &'i str| #[trigger] ap_map_uses(ap_map, n) ==> final(self).use_covered(n, span),
+            final(self).def_recorded(ap_map.map.name, span),
+            final(self).extends(old(self)), final(self).no_fold_or_next_added(old(self)),
+//@ end
+
+//@ lift crates/air-lib/air-parser/src/parser/validator.rs :: impl<'i> VariableValidator<'i> :: fn met_fail_literal
+//@ props C23
+//@ before "match fail {"
+        proof { reveal(VariableValidator::extends); }
+//@ spec
+        ensures
+            final(self).extends(old(self)),
+            final(self).only_uses_added_but_errcodes(old(self)),
+//@ end
+
+// KNOWN FINDING (d-fail), kept failing: the operand of `(fail x)` / `(fail x.$.a)` / `(fail #c.$.[0])` is a variable use like any other, but the
+// grammar action hands the instruction to met_fail_literal only, which looks at the literal form: `(fail x)` with x undefined is accepted
+// (pinned upstream by ast::tests::instructions::display_fail_scalar and the beautifier's fail_expr, which parse exactly that)
+//@ lift crates/air-lib/air-parser/src/parser/validator.rs :: impl<'i> VariableValidator<'i> :: fn met_fail_literal
+//@ name VariableValidator::met_fail_literal/operand-route
+//@ props C23
+//@ no-canary
+//@ sig 1 "fn met_fail_literal" => "fn met_fail_literal__operand_route"
+//@ spec
+        ensures
+            forall|n: &'i str| #[trigger] fail_uses(fail, n) ==> final(self).use_covered(n, span),
+//@ end
+}
+
+// ================================================================ the deciding side: ValidatorErrorBuilder and finalize
+//@ lift crates/air-lib/air-parser/src/parser/validator.rs :: fn add_to_errors
+//@ props C23
+//@ spec
+    ensures final(errors)@.len() == old(errors)@.len() + 1
+//@ end
+
+// assumed (callees outside the property: extra rules of the validator, and the sort): they only ADD errors and keep the set of folds
+impl<'i> ValidatorErrorBuilder<'i> {
+    // real: `for (_, spans) in self.validator.met_iterator_definitions.iter_all_mut() { spans.sort() }`
+    #[verifier::external_body]
+    fn sort_iterator_definitions(&mut self)
+        ensures final(self).errors == old(self).errors, final(self).validator.same_but_fold_order(&old(self).validator)
+    { unimplemented!() }
+    #[verifier::external_body]
+    fn check_multiple_next_in_fold(self) -> (r: Self)
+        ensures r.errors@.len() >= self.errors@.len()
+    { unimplemented!() }
+    #[verifier::external_body]
+    fn check_iterator_for_multiple_definitions(self) -> (r: Self)
+        ensures r.errors@.len() >= self.errors@.len()
+    { unimplemented!() }
+    #[verifier::external_body]
+    fn check_for_unsupported_map_keys(self) -> (r: Self)
+        ensures r.errors@.len() >= self.errors@.len()
+    { unimplemented!() }
+    #[verifier::external_body]
+    fn check_for_unsupported_literal_errcodes(self) -> (r: Self)
+        ensures r.errors@.len() >= self.errors@.len()
+    { unimplemented!() }
+
+//@ lift crates/air-lib/air-parser/src/parser/validator.rs :: impl<'i> ValidatorErrorBuilder<'i> :: fn new
+//@ props C23
+//@ ret r
+//@ spec
+        ensures r.errors@.len() == 0, r.validator.same_but_fold_order(&validator)
+//@ end
+
+// the fold that encloses `key_span` and declares `key`, if the search finds one. (That it finds one whenever there is one -- no false
+// "undefined iterable" -- is not stated: vstd's Filter says what the filtered elements satisfy, not that none is dropped.)
+//@ lift crates/air-lib/air-parser/src/parser/validator.rs :: impl<'i> ValidatorErrorBuilder<'i> :: fn find_closest_fold_span
+//@ props C23
+//@ ret r
+//@ rewrite 1 ".filter(|&s| s.contains_span(key_span))" => ".filter(|s: &&Span| -> (b: bool) ensures b == span_encloses(**s, key_span) { s.contains_span(key_span) })"
+//@ rewrite 1 ".last()" => ".verif_last()"
+//@ spec
+        ensures
+            r matches Some(s) ==> self.validator.iterator_recorded(key, s) && span_encloses(s, key_span),
+            r is Some ==> self.validator.enclosing_iterator(key, key_span),
+//@ end
+
+// C23: no error added ==> EVERY recorded use is in scope
+//@ lift crates/air-lib/air-parser/src/parser/validator.rs :: impl<'i> ValidatorErrorBuilder<'i> :: fn check_undefined_variables
+//@ props C23
+//@ ret r
+//@ sig 1 "mut self" => "self"
+//@ rewrite 1 "for (name, span) in self.validator.unresolved_variables.flat_iter()" => "let mut this = self; for (name, span) in it: this.validator.unresolved_variables.flat_iter()"
+//@ rewrite 1 "if !self.validator.contains_variable(name, *span)" => "if !this.validator.contains_variable(name, *span)"
+//@ rewrite 1 "add_to_errors(&mut self.errors, *span, Token::Call, error);" => "add_to_errors(&mut this.errors, *span, Token::Call, error);"
+//@ rewrite 1 "}\n\n        self" => "}\n\n        this"
+//@ spec
+        ensures
+            r.validator == self.validator, r.errors@.len() >= self.errors@.len(),
+            r.errors@.len() == self.errors@.len() ==> self.validator.all_recorded_uses_resolved(),
+//@ loop 0
+            invariant
+                this.validator == self.validator, this.errors@.len() >= self.errors@.len(),
+                forall|k: &'i str, m: int| self.validator.unresolved().contains_key(k) && 0 <= m < self.validator.unresolved()[k].len()
+                    ==> it.seq().contains((&k, &#[trigger] self.validator.unresolved()[k][m])),
+                this.errors@.len() == self.errors@.len() ==> forall|j: int| 0 <= j < it.index() ==> self.validator.resolved(*(#[trigger] it.seq()[j]).0, *it.seq()[j].1),
+//@ before "if !self.validator.contains_variable(name, *span)"
+            assert(it.seq()[it.index() as int] == (name, span));
+//@ end
+
+// what holds today of next: no error added ==> the FIRST recorded next of every iterator name lies inside a fold declaring it
+//@ lift crates/air-lib/air-parser/src/parser/validator.rs :: impl<'i> ValidatorErrorBuilder<'i> :: fn check_undefined_iterables
+//@ props C23
+//@ ret r
+//@ sig 1 "mut self" => "self"
+//@ rewrite 1 "for (name, span) in self.validator.unresolved_iterables.iter()" => "let mut this = self; for (name, span) in it: this.validator.unresolved_iterables.iter()"
+//@ rewrite 1 "if self.find_closest_fold_span(name, *span).is_none()" => "if this.find_closest_fold_span(name, *span).is_none()"
+//@ rewrite 1 "add_to_errors(&mut self.errors, *span, Token::New, error);" => "add_to_errors(&mut this.errors, *span, Token::New, error);"
+//@ rewrite 1 "}\n\n        self" => "}\n\n        this"
+//@ spec
+        ensures
+            r.validator == self.validator, r.errors@.len() >= self.errors@.len(),
+            r.errors@.len() == self.errors@.len() ==> self.validator.first_nexts_enclosed(),
+//@ loop 0
+            invariant
+                this.validator == self.validator, this.errors@.len() >= self.errors@.len(),
+                forall|k: &'i str| #[trigger] self.validator.nexts().contains_key(k) ==> self.validator.nexts()[k].len() > 0 && it.seq().contains((&k, &self.validator.nexts()[k][0])),
+                this.errors@.len() == self.errors@.len() ==> forall|j: int| 0 <= j < it.index() ==> self.validator.enclosing_iterator(*(#[trigger] it.seq()[j]).0, *it.seq()[j].1),
+//@ before "if self.find_closest_fold_span(name, *span).is_none()"
+            assert(it.seq()[it.index() as int] == (name, span));
+//@ end
+
+// KNOWN FINDING (b), kept failing: C23 asks this of EVERY next. `unresolved_iterables.iter()` is multimap's `iter()`, which yields the first value
+// of every key only: a second `next i` outside every fold, e.g. `(seq (fold [] i (next i)) (next i))`, is never looked at (pinned upstream by
+// negative_tests::uncatchable_trace_unrelated::fold_state_not_found, which needs that script to reach the run-time error)
+//@ lift crates/air-lib/air-parser/src/parser/validator.rs :: impl<'i> ValidatorErrorBuilder<'i> :: fn check_undefined_iterables
+//@ name ValidatorErrorBuilder::check_undefined_iterables/all-spans
+//@ props C23
+//@ no-canary
+//@ ret r
+//@ sig 1 "fn check_undefined_iterables" => "fn check_undefined_iterables__all_spans"
+//@ sig 1 "mut self" => "self"
+//@ rewrite 1 "for (name, span) in self.validator.unresolved_iterables.iter()" => "let mut this = self; for (name, span) in it: this.validator.unresolved_iterables.iter()"
+//@ rewrite 1 "if self.find_closest_fold_span(name, *span).is_none()" => "if this.find_closest_fold_span(name, *span).is_none()"
+//@ rewrite 1 "add_to_errors(&mut self.errors, *span, Token::New, error);" => "add_to_errors(&mut this.errors, *span, Token::New, error);"
+//@ rewrite 1 "}\n\n        self" => "}\n\n        this"
+//@ spec
+        ensures
+            r.validator == self.validator, r.errors@.len() >= self.errors@.len(),
+            r.errors@.len() == self.errors@.len() ==> self.validator.all_nexts_enclosed(),
+//@ loop 0
+            invariant
+                this.validator == self.validator, this.errors@.len() >= self.errors@.len(),
+                forall|k: &'i str| #[trigger] self.validator.nexts().contains_key(k) ==> self.validator.nexts()[k].len() > 0 && it.seq().contains((&k, &self.validator.nexts()[k][0])),
+                this.errors@.len() == self.errors@.len() ==> forall|j: int| 0 <= j < it.index() ==> self.validator.enclosing_iterator(*(#[trigger] it.seq()[j]).0, *it.seq()[j].1),
+//@ before "if self.find_closest_fold_span(name, *span).is_none()"
+            assert(it.seq()[it.index() as int] == (name, span));
+//@ end
+
+//@ lift crates/air-lib/air-parser/src/parser/validator.rs :: impl<'i> ValidatorErrorBuilder<'i> :: fn check_new_on_iterators
+//@ props C23
+//@ ret r
+//@ sig 1 "mut self" => "self"
+//@ rewrite 1 "for (name, span) in self.validator.not_iterators_candidates.iter()" => "let mut this = self; for (name, span) in it: this.validator.not_iterators_candidates.iter()"
+//@ rewrite 1 "if self.find_closest_fold_span(name, *span).is_some()" => "if this.find_closest_fold_span(name, *span).is_some()"
+//@ rewrite 1 "add_to_errors(&mut self.errors, *span, Token::New, error);" => "add_to_errors(&mut this.errors, *span, Token::New, error);"
+//@ rewrite 1 "}\n\n        self" => "}\n\n        this"
+//@ spec
+        ensures r.validator == self.validator, r.errors@.len() >= self.errors@.len()
+//@ loop 0
+            invariant this.validator == self.validator, this.errors@.len() >= self.errors@.len()
+//@ end
+
+//@ lift crates/air-lib/air-parser/src/parser/validator.rs :: impl<'i> ValidatorErrorBuilder<'i> :: fn check_after_next_instr
+//@ props C23
+//@ ret r
+//@ sig 1 "mut self" => "self"
+//@ rewrite 1 "for span in self.validator.after_next_machine.malformed_spans_iter()" => "let mut this = self; for span in it: this.validator.after_next_machine.malformed_spans_iter()"
+//@ rewrite 1 "add_to_errors(&mut self.errors, *span, Token::Next, error);" => "add_to_errors(&mut this.errors, *span, Token::Next, error);"
+//@ rewrite 1 "}\n        self" => "}\n        this"
+//@ spec
+        ensures r.errors@.len() >= self.errors@.len()
+//@ loop 0
+            invariant this.errors@.len() >= self.errors@.len()
+//@ end
+
+//@ lift crates/air-lib/air-parser/src/parser/validator.rs :: impl<'i> ValidatorErrorBuilder<'i> :: fn build
+//@ props C23
+//@ ret r
+//@ spec
+        ensures r == self.errors
+//@ end
+}
+
+impl<'i> VariableValidator<'i> {
+// C23 on the recorded lists: finalize reports nothing ==> every recorded use is defined earlier or inside a fold that declares it,
+// and (today: the first recorded next of every iterator; KNOWN FINDING b for the others) lies inside a fold that declares its iterator
+//@ lift crates/air-lib/air-parser/src/parser/validator.rs :: impl<'i> VariableValidator<'i> :: fn finalize
+//@ props C23
+//@ ret r
+//@ spec
+        ensures
+            r@.len() == 0 ==> self.all_recorded_uses_resolved(),
+            r@.len() == 0 ==> self.first_nexts_enclosed(),
+//@ end
+
+// the full statement about next, proved from check_undefined_iterables/all-spans (which is the KNOWN FINDING b and fails alone)
+//@ lift crates/air-lib/air-parser/src/parser/validator.rs :: impl<'i> VariableValidator<'i> :: fn finalize
+//@ name VariableValidator::finalize/every-next-enclosed
+//@ props C23
+//@ no-canary
+//@ ret r
+//@ sig 1 "fn finalize" => "fn finalize__every_next_enclosed"
+//@ rewrite 1 ".check_undefined_iterables()" => ".check_undefined_iterables__all_spans()"
+//@ spec
+        ensures
+            r@.len() == 0 ==> self.all_nexts_enclosed(),
 //@ end
 }
 
